@@ -9,6 +9,15 @@ NOTE_COMMON = ("Trusted: Lean 4.33 kernel; axioms ⊆ {propext, Classical.choice
                "implementation by differential execution (sampled), not by proof. ")
 
 CLAIMED = {
+ "C19": dict(
+   text=("Lean theorems for every caption list (any length, any rational times, opaque nodes): the accumulator loop of merge_concurrent_captions "
+         "equals 'one caption per maximal run of equal (start,end), nodes joined by breaks' (merge_runs), a singleton run is unchanged "
+         "(merge_others_untouched), merging twice = once (merge_idempotent), runs partition the input (runs_flatten); adjust_caption_timing's loop "
+         "equals map(t*skew+offset) then filter(start>=0) (adjust_affine_filter). Correspondence: random multi-language sets with runs of every "
+         "length/position, exact Fraction and float skews, offsets of both signs, node identity tracked by id()."),
+   ref="§3 C19", technique="Lean 4 proof (induction over the caption list with the loop state as invariant) + differential correspondence",
+   note=NOTE_COMMON + "Float skews are compared to the exact rational model within 1e-9 relative tolerance; merge theorems assume every caption has at least one node (enforced by Caption.__init__)."),
+
  "C20": dict(
    text=("Lean theorems for every string: detect_format never raises on non-empty input (detect_total, via splitlines_ne_nil), raises the "
          "no-captions error on the empty string, returns a reader only if its own detect accepts and all earlier readers in the documented order "
